@@ -114,6 +114,12 @@ struct CModel {
   committed: Contents,
   alts: Vec<Alt>,
   synced: BTreeSet<u32>,
+  /// operations an earlier crash left in the log although the commit they
+  /// belong to had already been published (the crash fell between the manifest
+  /// rename and the durable commit marker). They stay there legitimately until
+  /// the log is next cleared (completed commit or rollback); re-applying them
+  /// must not change contents.
+  applied: Vec<TOp>,
 }
 
 #[derive(Clone, Debug)]
@@ -507,6 +513,33 @@ fn check_image(
         allowed.insert(t.call);
       }
     }
+    // leftovers of a commit that an earlier crash interrupted after its
+    // publication: nothing has cleared the log since, so they may still be
+    // there - as long as applying them again changes nothing
+    let leftover: BTreeSet<u32> = b.model.applied.iter().map(|t| t.call).filter(|c| !allowed.contains(c)).collect();
+    if !leftover.is_empty() && on_disk.iter().any(|t| leftover.contains(&t.call)) {
+      ctx.stats.inc("probe.applied_ops_still_logged");
+      let all: Vec<QOp> = on_disk.iter().map(|t| t.op.clone()).collect();
+      let without: Vec<QOp> = on_disk.iter().filter(|t| !leftover.contains(&t.call)).map(|t| t.op.clone()).collect();
+      if !published && fold(&contents, &all) != fold(&contents, &without) {
+        return Err(Violation::new(
+          &["C02"],
+          "applied-op-reapplied",
+          &site,
+          step,
+          format!(
+            "crash during {} after `{}` (image class {}): the log holds {:?}; {:?} of them were committed by a commit an earlier crash interrupted after publication, and applying them again on top of {:?} changes the result",
+            flight_kind,
+            last_prim,
+            class,
+            on_disk.iter().map(|t| t.op.short()).collect::<Vec<_>>(),
+            on_disk.iter().filter(|t| leftover.contains(&t.call)).map(|t| t.op.short()).collect::<Vec<_>>(),
+            contents_short(&contents)
+          ),
+        ));
+      }
+      allowed.extend(leftover.iter().copied());
+    }
     let in_flight_call = if b.pos > 0 { log[..b.pos].iter().rev().find_map(|e| e.api.map(|a| a as u32)) } else { None };
     let stale: Vec<&TOp> = on_disk
       .iter()
@@ -543,6 +576,8 @@ fn check_image(
       committed: contents.clone(),
       alts,
       synced: BTreeSet::new(),
+      // the published commit's operations are still in the log
+      applied: on_disk.clone(),
     }
   } else {
     CModel {
@@ -553,6 +588,8 @@ fn check_image(
       }],
       // what is on disk now stays on disk
       synced: on_disk_calls.clone(),
+      // from here on they are ordinary queue entries (`q` above)
+      applied: Vec::new(),
     }
   };
   if !on_disk.is_empty() {
@@ -725,10 +762,14 @@ fn run_session(ctx: &mut Ctx, fs: &SimFs, session: &mut Session, start: CModel, 
           model.alts = vec![Alt::empty()];
           model.synced.clear();
         }
+        // a writer opened after the crash has replayed the leftovers, so this
+        // commit had something to do and cleared the log when it finished
+        model.applied.clear();
       }
       Op::Rollback { .. } => {
         model.alts = vec![Alt::empty()];
         model.synced.clear();
+        model.applied.clear();
       }
       Op::DropWriter { .. } => {
         if model.alts.iter().all(|a| !a.code_queue_empty()) {
@@ -920,6 +961,7 @@ pub fn run_case(case: &CrashCase, wroot: &Path, c02: bool, stats: &mut Stats) ->
     committed: Contents::new(),
     alts: vec![Alt::empty()],
     synced: BTreeSet::new(),
+    applied: Vec::new(),
   };
   let mut disk: Option<Image> = None;
   let nsessions = case.sessions.len();
